@@ -14,29 +14,39 @@ From Coq Require Export NArith ZArith List String Bool.
 From RV Require Export Lib.Hex Model.Actor Corr.Common.
 Import ListNotations.
 
-Definition G : prim := PGet.
-Definition St (v : string) : prim := PSet (unhex v).
-Definition Ic : prim := PIncrBy 1.
-Definition Ib (z : Z) : prim := PIncrBy z.              (* INCRBY z; DECR = Ib (-1); DECRBY n = Ib (-n) *)
-Definition Ap (v : string) : prim := PAppend (unhex v).
-Definition Dl : prim := PDel.
-Definition Nx (v : string) : prim := PSetNx (unhex v).
-Definition So (v : string) (nx xx get : bool) : prim := PSetOpt (unhex v) nx xx get.
-Definition Gs (v : string) : prim := PGetSet (unhex v).
-Definition Gd : prim := PGetDel.
-Definition Sr (off : nat) (v : string) : prim := PSetRange off (unhex v).
-Definition Ex : prim := PExists.
-Definition Lp (v : string) : prim := PLPush (unhex v).
-Definition Rp (v : string) : prim := PRPush (unhex v).
-Definition Lo : prim := PLPop.
-Definition Ro : prim := PRPop.
-Definition Lr : prim := PLRange.
-Definition Sa (v : string) : prim := PSAdd (unhex v).
-Definition Sm (v : string) : prim := PSRem (unhex v).
-Definition Ms : prim := PSMembers.
-Definition Hs (f v : string) : prim := PHSet (unhex f) (unhex v).
-Definition Hd (f : string) : prim := PHDel (unhex f).
-Definition Ha : prim := PHGetAll.
+Definition G : cmd := CP (PGet).
+Definition St (v : string) : cmd := CP (PSet (unhex v)).
+Definition Ic : cmd := CP (PIncrBy 1).
+Definition Ib (z : Z) : cmd := CP (PIncrBy z).              (* INCRBY z; DECR = Ib (-1); DECRBY n = Ib (-n) *)
+Definition Ap (v : string) : cmd := CP (PAppend (unhex v)).
+Definition Dl : cmd := CP (PDel).
+Definition Nx (v : string) : cmd := CP (PSetNx (unhex v)).
+Definition So (v : string) (nx xx get : bool) : cmd := CP (PSetOpt (unhex v) nx xx get).
+Definition Gs (v : string) : cmd := CP (PGetSet (unhex v)).
+Definition Gd : cmd := CP (PGetDel).
+Definition Sr (off : nat) (v : string) : cmd := CP (PSetRange off (unhex v)).
+Definition Ex : cmd := CP (PExists).
+Definition Lp (v : string) : cmd := CP (PLPush (unhex v)).
+Definition Rp (v : string) : cmd := CP (PRPush (unhex v)).
+Definition Lo : cmd := CP (PLPop).
+Definition Ro : cmd := CP (PRPop).
+Definition Lr : cmd := CP (PLRange).
+Definition Sa (v : string) : cmd := CP (PSAdd (unhex v)).
+Definition Sm (v : string) : cmd := CP (PSRem (unhex v)).
+Definition Ms : cmd := CP (PSMembers).
+Definition Hs (f v : string) : cmd := CP (PHSet (unhex f) (unhex v)).
+Definition Hd (f : string) : cmd := CP (PHDel (unhex f)).
+Definition Ha : cmd := CP (PHGetAll).
+
+(* commands that mention time; all instants and durations in virtual milliseconds *)
+Definition Ad (t : N) : cmd := CAdv t.
+Definition Sx (v : string) (ms : N) : cmd := CSetPx (unhex v) ms.          (* SET PX ms / EX s *)
+Definition Sk (v : string) : cmd := CSetKeep (unhex v).
+Definition Xp (ms : N) (nx xx gt lt : bool) : cmd := CExpire ms nx xx gt lt. (* PEXPIRE / EXPIRE *)
+Definition Pe : cmd := CPersist.
+Definition Tt : cmd := CTtl.
+Definition Pt : cmd := CPttl.
+Definition Ge (o : option (option N)) : cmd := CGetEx o.
 
 Definition V0 : prep := RVal None.
 Definition Vs (v : string) : prep := RVal (Some (unhex v)).
@@ -61,17 +71,19 @@ Definition kinit_state (i : kinit) : kst :=
   end.
 
 (* completed operation: id, invocation stamp, response stamp, primitives, replies *)
-Definition Oc (id inv ret : nat) (ops : list prim) (reps : list prep) : oprec (list prim) (list prep) :=
+Definition Oc (id inv ret : nat) (ops : list cmd) (reps : list prep) : oprec (list cmd) (list prep) :=
   OpRec id inv (Some ret) ops reps.
 
 Record window := W2 {
   w_init : kinit;                                   (* value at the barrier; I0 = absent *)
-  w_ops : list (oprec (list prim) (list prep));
+  w_dl : option N;                                  (* its deadline at the barrier *)
+  w_now : N;                                        (* the clock at the barrier *)
+  w_ops : list (oprec (list cmd) (list prep));
   w_impl_verdict : bool                             (* the harness's own checker *)
 }.
 Record case2 := K2 { k_windows : list window }.
 
-Definition w_state (w : window) : kst := kinit_state (w_init w).
+Definition w_state (w : window) : tst := TSt (kinit_state (w_init w)) (w_dl w) (w_now w).
 
 Definition stamps_ok (w : window) : bool :=
   forallb (fun o => match o_ret o with Some r => Nat.ltb (o_inv o) r | None => false end) (w_ops w).
